@@ -180,7 +180,24 @@ def call_native_method(I, f, args, kwargs):
     I.unsupported("no model for %s with symbolic data" % getattr(f, "__qualname__", f))
 
 
+_OBJECT_SLOTS = ("__setattr__", "__delattr__", "__getattribute__")
+
+
+def _is_object_slot(f):
+    """object.__setattr__ and friends, bound (method-wrapper) or unbound (slot wrapper): value-agnostic attribute access"""
+    if getattr(f, "__name__", None) not in _OBJECT_SLOTS:
+        return False
+    if isinstance(f, types.MethodWrapperType):
+        return getattr(type(f.__self__), f.__name__, None) is not None and getattr(f, "__objclass__", object) is object
+    if isinstance(f, types.WrapperDescriptorType):
+        return f.__objclass__ is object
+    return False
+
+
 def call_other(I, f, args, kwargs):
+    if _is_object_slot(f):
+        # super().__setattr__(name, value) inside a class's own __setattr__ hook: stores / reads the value, never looks inside it
+        return I.native(f, *args, **kwargs)
     ent = FUNC_MODELS.get(id(f))
     if ent is not None:
         r = ent[1](I, args, kwargs)
